@@ -4,11 +4,13 @@ import json
 import sys
 
 pid = sys.argv[1]
+round3 = len(sys.argv) > 2 and sys.argv[2] == 'callers'
 wt = '/tmp/wt-%s' % pid
 for line in open('/verif/properties.jsonl'):
     p = json.loads(line)
     if p['id'] == pid:
         break
+extra = (" At least one of the two changes must be made in a module OTHER than the files the property is anchored in: a caller, helper or sibling module through which the property is also observable (for instance command line tools under edxml/cli, event collections, the transcoder classes and their test harnesses, the miner's parsers, logging or utility modules), so that code paths beyond the central one are covered." if round3 else "")
 print(f"""You are working in a scratch git worktree of the pure-Python package edxml/sdk at {wt} (a detached checkout of the project's HEAD). Work ONLY inside {wt}. Do not read, list or modify /repo or /verif or any other /tmp/wt-* directory.
 
 Environment: no network. Python is /venv/bin/python (all dependencies installed). To run code against the worktree use `cd {wt} && PYTHONPATH={wt} /venv/bin/python ...` and check `edxml.__file__` points into {wt}. Test suite: `cd {wt} && /venv/bin/python -m pytest -q -p no:cacheprovider` (about 6 s). On the unchanged tree exactly 12 tests fail (listed in /tmp/baseline_failed.txt) and 1112 pass; those 12 are pre-existing and irrelevant.
@@ -20,7 +22,7 @@ The following semantic property of the SDK is supposed to hold:
   Quantified over: {p['quantifier']['text']}
   Code it is anchored in: {', '.join(p['anchors']['files'])}
 
-Your task: write TWO different, independent, realistic changes to the package source under {wt}/edxml (not to tests) that each BREAK this property while the package still imports and the existing test suite still passes exactly as before (same 1112 passing, no new failures). Each change should look like a plausible refactoring, optimisation or well-meant bug fix gone wrong - the kind of regression a maintainer could really commit - not sabotage. Prefer changes that need something specific to manifest (an unusual input, a particular multi-step sequence of operations, a particular interleaving or chunking, a fault at a particular point, or two cooperating sites that each look fine alone) rather than ones any ordinary use would expose at once. The two changes should touch different mechanisms.
+Your task: write TWO different, independent, realistic changes to the package source under {wt}/edxml (not to tests) that each BREAK this property while the package still imports and the existing test suite still passes exactly as before (same 1112 passing, no new failures). Each change should look like a plausible refactoring, optimisation or well-meant bug fix gone wrong - the kind of regression a maintainer could really commit - not sabotage. Prefer changes that need something specific to manifest (an unusual input, a particular multi-step sequence of operations, a particular interleaving or chunking, a fault at a particular point, or two cooperating sites that each look fine alone) rather than ones any ordinary use would expose at once. The two changes should touch different mechanisms.{extra}
 
 For each change N in (1, 2) create the directory {wt}/_seed/{pid}-N/ containing:
   * patch.diff - `git diff` against HEAD, must apply with `git apply` from the repository root (only files under edxml/).
